@@ -911,6 +911,14 @@ func (mpt *MerklePatriciaTrie) insertNode(oldNode Node, newNode Node) (Node, Key
 	}
 
 	newNode.SetOrigin(mpt.Version)
+	return mpt.storeNode(oldNode, newNode)
+}
+
+// storeNode files newNode, as it is, under its hash in place of oldNode and
+// records the change. It does not stamp the origin: insertNode does that for a
+// node this trie builds, while the nodes of a merged change set keep the origin
+// (and therefore the hash) their own trie gave them.
+func (mpt *MerklePatriciaTrie) storeNode(oldNode Node, newNode Node) (Node, Key, error) {
 	ckey := newNode.GetHashBytes()
 	if err := mpt.db.PutNode(ckey, newNode); err != nil {
 		return nil, nil, err
@@ -1158,8 +1166,13 @@ func (mpt *MerklePatriciaTrie) mergeChanges(newRoot Key, changes []*NodeChange, 
 		return errors.New("optimistic lock failure")
 	}
 
+	// the child's root refers to these nodes by the hashes the child computed:
+	// they are taken over as they are. Re-stamping them (insertNode) would give a
+	// node that came from another version - one the child took over with MergeDB -
+	// a new hash, under which nothing refers to it, and would rewrite the object
+	// the other store holds.
 	for _, c := range changes {
-		if _, _, err := mpt.insertNode(c.Old, c.New); err != nil {
+		if _, _, err := mpt.storeNode(c.Old, c.New); err != nil {
 			return err
 		}
 	}
